@@ -19,7 +19,8 @@ def ident(rng, n):
         return "`%s`" % n
     if k < .9:
         return "[%s]" % n
-    return n.upper() if rng.random() < .5 else n.lower()
+    # another spelling of the SAME identifier: SQLite folds the case of ASCII letters only
+    return "".join((ch.upper() if up else ch.lower()) if ch.isascii() else ch for ch in n) if ((up := rng.random() < .5) or True) else n
 
 
 def indexed_cols(rng, cols, maxn=3, allow_expr=False):
